@@ -99,6 +99,12 @@ func gen(g *common.Gen) {
 		}
 		g.Op("new %d %s", m, strings.Join(texts, ","))
 		g.Stat(fmt.Sprintf("m=%d", m))
+		if r.Chance(2, 5) {
+			// the caller reuses the memory of every name it passed (1), and passes the root as nil (2)
+			k := 1 + r.Range(0, 1)
+			g.Op("own %d", k)
+			g.Stat(fmt.Sprintf("own-%d", k))
+		}
 		// "hot" names concentrate the operations so that entries are hit again
 		hot := make([]string, 0, 5)
 		for k := 0; k < r.Range(2, 5); k++ {
@@ -431,13 +437,56 @@ func dumpHash() string {
 	return "real=" + strings.Join(r, ";") + " virt=" + strings.Join(v, ";")
 }
 
+// ownMode: how the caller treats the names it hands to the tables. 0: every name is a fresh value
+// the caller never touches again. 1: the caller REUSES its name memory after the call returns (a name
+// decoded from a packet buffer that is recycled): the harness overwrites every component of every
+// name it passed (types, value bytes and the slice itself) once the call is over — a table that keeps
+// the caller's slice instead of a copy then lists / prunes by a name nobody registered. 2: the same,
+// and the root is passed as a nil Name (enc.Name(nil) is the root as much as enc.Name{} is).
+var ownMode int
+var owned []enc.Name
+
+// own parses a name that is handed to a table operation
+func own(s string) enc.Name {
+	n := common.ParseNameText(s)
+	if ownMode == 2 && len(n) == 0 {
+		return nil
+	}
+	if ownMode >= 1 {
+		owned = append(owned, n)
+	}
+	return n
+}
+
+// scribble: the caller reuses the memory of every name it passed during the operation
+func scribble() {
+	for _, n := range owned {
+		for i := range n {
+			for j := range n[i].Val {
+				n[i].Val[j] ^= 0x5a
+			}
+			n[i] = enc.Component{Typ: 0xdead, Val: []byte("reused")}
+		}
+	}
+	owned = owned[:0]
+}
+
 func exec(op string) string {
+	defer scribble()
+	return exec1(op)
+}
+
+func exec1(op string) string {
 	f := common.Fields(op)
 	if f[0] != "new" && tree == nil {
 		return "skip"
 	}
 	switch f[0] {
+	case "own":
+		ownMode = common.Atoi(f[1])
+		return "ok"
 	case "new":
+		ownMode = 0
 		m := common.Atoi(f[1])
 		univ = univ[:0]
 		for _, s := range strings.Split(f[2], ",") {
@@ -452,18 +501,18 @@ func exec(op string) string {
 		return "ok " + stratText(tree.FindStrategyEnc(enc.Name{})) + " " + stratText(hash.FindStrategyEnc(enc.Name{}))
 	case "ins":
 		n, face, cost := f[1], common.Atou(f[2]), common.Atou(f[3])
-		return each(func(t table.FibStrategy) { t.InsertNextHopEnc(common.ParseNameText(n), face, cost) })
+		return each(func(t table.FibStrategy) { t.InsertNextHopEnc(own(n), face, cost) })
 	case "rem":
 		n, face := f[1], common.Atou(f[2])
-		return each(func(t table.FibStrategy) { t.RemoveNextHopEnc(common.ParseNameText(n), face) })
+		return each(func(t table.FibStrategy) { t.RemoveNextHopEnc(own(n), face) })
 	case "clr":
-		return each(func(t table.FibStrategy) { t.ClearNextHopsEnc(common.ParseNameText(f[1])) })
+		return each(func(t table.FibStrategy) { t.ClearNextHopsEnc(own(f[1])) })
 	case "rep": // <name>=<f:c,f:c|->;<name>=…  one ReplaceNextHopsEnc call
 		return each(func(t table.FibStrategy) {
 			var ups []table.FibNextHopsUpdate
 			for _, part := range strings.Split(f[1], ";") {
 				kv := strings.SplitN(part, "=", 2)
-				up := table.FibNextHopsUpdate{Name: common.ParseNameText(kv[0])}
+				up := table.FibNextHopsUpdate{Name: own(kv[0])}
 				if kv[1] != "-" {
 					for _, h := range strings.Split(kv[1], ",") {
 						fcs := strings.SplitN(h, ":", 2)
@@ -475,12 +524,12 @@ func exec(op string) string {
 			t.ReplaceNextHopsEnc(ups)
 		})
 	case "sets":
-		return each(func(t table.FibStrategy) { t.SetStrategyEnc(common.ParseNameText(f[1]), common.ParseNameText(f[2])) })
+		return each(func(t table.FibStrategy) { t.SetStrategyEnc(own(f[1]), own(f[2])) })
 	case "unsets":
 		if f[1] == "/" {
 			return "skip" // not producible through management (strategy-choice/unset rejects the root)
 		}
-		return each(func(t table.FibStrategy) { t.UnSetStrategyEnc(common.ParseNameText(f[1])) })
+		return each(func(t table.FibStrategy) { t.UnSetStrategyEnc(own(f[1])) })
 	case "qa":
 		return both(func(t table.FibStrategy) string {
 			s := make([]string, len(univ))
